@@ -11,6 +11,7 @@
 import PsutilModel.Proofs.C07Parse
 import PsutilModel.Proofs.C07Hist
 import PsutilModel.Proofs.C07Proc
+import PsutilModel.Proofs.C07Ext
 import PsutilModel.Model.C07Gen
 namespace Psutil.C07
 open Spec
@@ -727,5 +728,276 @@ theorem cfg_proc_scale_delta : cfg.procScaleDelta = true := by decide
     code as it is now. -/
 theorem C07_proc_percent_code : C07_proc_percent_Full cfg :=
   C07_proc_percent_fixed cfg cfg_good cfg_proc_scale_delta
+
+/-! ## F. `cpuN` lines that carry their own CPU numbers (offline CPUs are not printed) -/
+
+/-- **C07_times_any_numbering.** The round trip of `C07_times_exact` / `C07_per_cpu_times_exact` for a
+    kernel that numbers its `cpuN` lines in ANY way (`cpu0`, `cpu2`, `cpu3` after CPU 1 went offline;
+    any order, gaps, even repeated numbers): `cpu_times()` is the aggregate line,
+    `cpu_times(percpu=True)` lists the printed CPUs in the order printed, each exactly
+    `ticks / USER_HZ` — the number after `cpu` is never looked at. -/
+theorem C07_times_any_numbering (tck : Nat) (htck : 0 < tck) (vlen ncols : Nat)
+    (hcols : nfOf vlen ≤ ncols) (w : ProcStatL) (ho : ∀ l ∈ w.other, 10 ∉ l)
+    (hp : ∀ l ∈ w.other, startsWith [99, 112, 117] l = false) :
+    cpuTimes cfg (fieldsFor cfg vlen).length tck (renderProcStatL ncols w)
+      = .ok (seconds tck (nfOf vlen) w.total) ∧
+    perCpuTimes cfg (fieldsFor cfg vlen).length tck (renderProcStatL ncols w)
+      = .ok (w.cpus.map fun p => seconds tck (nfOf vlen) p.2) := by
+  have hg := cfg_good
+  have h10 : nfOf vlen ≤ 10 := (C07_fields_kernel_order vlen).2.2
+  rw [fieldsFor_length cfg hg]
+  constructor
+  · unfold cpuTimes firstLine renderProcStatL
+    rw [linesOf_unlines _ (statLinesL_no_newline ncols w ho)]
+    simp only [statLinesL, List.headD_cons, splitWs_totalLine, hg.sliceFrom, hg.sliceExtra]
+    exact parseCpuValues_render cfg hg tck htck _ ncols h10 hcols _ _
+  · unfold perCpuTimes renderProcStatL
+    rw [linesOf_unlines _ (statLinesL_no_newline ncols w ho)]
+    simp only [statLinesL, List.drop_succ_cons, List.drop_zero]
+    exact parseCpuLines_renderL cfg hg tck htck _ ncols h10 hcols w.other hp w.cpus
+
+/-- the numbered renderer extends the one of `C07_times_exact`: CPUs numbered 0..n-1 print the same file -/
+theorem C07_numbering_extends (ncols : Nat) (w : ProcStat) :
+    renderProcStatL ncols ⟨w.total, numberFrom 0 w.cpus, w.other⟩ = renderProcStat ncols w := by
+  simp [renderProcStatL, renderProcStat, statLinesL, statLines, renderCpuLinesL_numberFrom]
+
+/-- **C07_percpu_numbered_by_position.** What `cpu_percent(percpu=True)` returns on two kernel states
+    whose CPU lines carry ANY numbers: entry `k` compares the `k`-th printed line of the first
+    state with the `k`-th printed line of the second, whatever their numbers. -/
+theorem C07_percpu_numbered_by_position (tck : Nat) (htck : 0 < tck) (vlen ncols : Nat)
+    (hcols : nfOf vlen ≤ ncols) (w1 w2 : ProcStatL)
+    (ho1 : ∀ l ∈ w1.other, 10 ∉ l) (ho2 : ∀ l ∈ w2.other, 10 ∉ l)
+    (hp1 : ∀ l ∈ w1.other, startsWith [99, 112, 117] l = false)
+    (hp2 : ∀ l ∈ w2.other, startsWith [99, 112, 117] l = false) (tid : Tid) (rest : List Bytes) :
+    (step ⟨cfg, vlen, tck⟩ St.init
+        ⟨.percent, tid, none, true, renderProcStatL ncols w1 :: renderProcStatL ncols w2 :: rest⟩).2 =
+      .ok (.nums (perCpuPercent (nfOf vlen) (w1.cpus.map fun p => Times.ofTicks tck p.2)
+                    (w2.cpus.map fun p => Times.ofTicks tck p.2))) 2 := by
+  generalize he : (⟨cfg, vlen, tck⟩ : Env) = e
+  have s1 : sample e true (renderProcStatL ncols w1)
+      = .ok (.many (w1.cpus.map fun p => seconds tck (nfOf vlen) p.2)) := by
+    subst he
+    simp only [sample, Env.fields, if_true]
+    rw [(C07_times_any_numbering tck htck vlen ncols hcols w1 ho1 hp1).2]
+  have s2 : sample e true (renderProcStatL ncols w2)
+      = .ok (.many (w2.cpus.map fun p => seconds tck (nfOf vlen) p.2)) := by
+    subst he
+    simp only [sample, Env.fields, if_true]
+    rw [(C07_times_any_numbering tck htck vlen ncols hcols w2 ho2 hp2).2]
+  have hsec : ∀ l : List (Nat × Ticks), (l.map fun p => seconds tck (nfOf vlen) p.2)
+      = (l.map fun p => Times.ofTicks tck p.2).map (Times.expose (nfOf vlen)) := by
+    intro l
+    simp [List.map_map, Function.comp_def, C07_seconds_expose]
+  have hc : calcStored e .percent (.many (w1.cpus.map fun p => seconds tck (nfOf vlen) p.2))
+      (.many (w2.cpus.map fun p => seconds tck (nfOf vlen) p.2))
+      = .ok (.nums (perCpuPercent (nfOf vlen) (w1.cpus.map fun p => Times.ofTicks tck p.2)
+                      (w2.cpus.map fun p => Times.ofTicks tck p.2))) := by
+    subst he
+    rw [hsec, hsec]
+    exact (C07_percpu_any_lengths vlen tck _ _).1
+  rw [step_unfold]
+  simp only [Call.negative, Call.blocking, refOf, usable, St.init, Bool.false_eq_true, if_false, s1]
+  rw [finish_out]
+  simp only [s2, hc]
+
+/-- the full-strength reading of "for each CPU separately" when CPUs are identified by their kernel
+    NUMBER and the set of online CPUs may change between the two samples: one value per CPU online in
+    both samples, each from that CPU's own two records -/
+def C07_percpu_by_number_Full (c0 : Cfg) : Prop :=
+  ∀ (tck : Nat), 0 < tck → ∀ (vlen ncols : Nat), nfOf vlen ≤ ncols → ∀ (w1 w2 : ProcStatL),
+    (∀ l ∈ w1.other, 10 ∉ l) → (∀ l ∈ w2.other, 10 ∉ l) →
+    (∀ l ∈ w1.other, startsWith [99, 112, 117] l = false) →
+    (∀ l ∈ w2.other, startsWith [99, 112, 117] l = false) → ∀ (tid : Tid) (rest : List Bytes),
+    (step ⟨c0, vlen, tck⟩ St.init
+        ⟨.percent, tid, none, true, renderProcStatL ncols w1 :: renderProcStatL ncols w2 :: rest⟩).2 =
+      .ok (.nums (perCpuByNumber (nfOf vlen) (w1.cpus.map fun p => (p.1, Times.ofTicks tck p.2))
+                    (w2.cpus.map fun p => (p.1, Times.ofTicks tck p.2)))) 2
+
+/-- **C07_percpu_by_number_partial.** Whenever the two samples list the SAME CPU numbers in the same
+    order (no CPU went on- or offline in between; numbers distinct, gaps allowed), every returned
+    entry is the percentage of one and the same CPU, identified by its kernel number. -/
+theorem C07_percpu_by_number_partial (tck : Nat) (htck : 0 < tck) (vlen ncols : Nat)
+    (hcols : nfOf vlen ≤ ncols) (w1 w2 : ProcStatL)
+    (ho1 : ∀ l ∈ w1.other, 10 ∉ l) (ho2 : ∀ l ∈ w2.other, 10 ∉ l)
+    (hp1 : ∀ l ∈ w1.other, startsWith [99, 112, 117] l = false)
+    (hp2 : ∀ l ∈ w2.other, startsWith [99, 112, 117] l = false) (tid : Tid) (rest : List Bytes)
+    (hsame : w1.cpus.map Prod.fst = w2.cpus.map Prod.fst) (hnd : (w1.cpus.map Prod.fst).Nodup) :
+    (step ⟨cfg, vlen, tck⟩ St.init
+        ⟨.percent, tid, none, true, renderProcStatL ncols w1 :: renderProcStatL ncols w2 :: rest⟩).2 =
+      .ok (.nums (perCpuByNumber (nfOf vlen) (w1.cpus.map fun p => (p.1, Times.ofTicks tck p.2))
+                    (w2.cpus.map fun p => (p.1, Times.ofTicks tck p.2)))) 2 := by
+  rw [C07_percpu_numbered_by_position tck htck vlen ncols hcols w1 w2 ho1 ho2 hp1 hp2 tid rest]
+  have h := perCpu_position_eq_number (nfOf vlen)
+    (w1.cpus.map fun p => (p.1, Times.ofTicks tck p.2)) (w2.cpus.map fun p => (p.1, Times.ofTicks tck p.2))
+    (by simpa [List.map_map, Function.comp_def] using hsame)
+    (by simpa [List.map_map, Function.comp_def] using hnd)
+  simp only [List.map_map, Function.comp_def] at h
+  rw [h]
+
+/-- **C07_percpu_by_number_counterexample** (characterisation, beyond the property's quantifier, which
+    fixes the CPUs of a sequence of snapshots): when a CPU in the MIDDLE of the list goes offline
+    between two samples the statement is false of the code. CPUs 0, 1, 2 online, CPU 1 has used 1 s;
+    then CPU 1 goes offline and CPU 2 is fully busy for 1 s: position 1 compares old `cpu1` with new
+    `cpu2` and reports 0.0 for a CPU that was 100 % busy. -/
+theorem C07_percpu_by_number_counterexample : ¬ C07_percpu_by_number_Full cfg := by
+  intro hfull
+  let z : Ticks := ⟨0, 0, 0, 0, 0, 0, 0, 0, 0, 0⟩
+  let u : Ticks := ⟨100, 0, 0, 0, 0, 0, 0, 0, 0, 0⟩
+  let w1 : ProcStatL := ⟨u, [(0, z), (1, u), (2, z)], []⟩
+  let w2 : ProcStatL := ⟨u, [(0, z), (2, u)], []⟩
+  have h1 := hfull 100 (by decide) 10 10 (by decide) w1 w2 (by simp [w1]) (by simp [w2]) (by simp [w1])
+    (by simp [w2]) 0 []
+  rw [C07_percpu_numbered_by_position 100 (by decide) 10 10 (by decide) w1 w2 (by simp [w1]) (by simp [w2])
+    (by simp [w1]) (by simp [w2]) 0 []] at h1
+  simp only [Out.ok.injEq, Val.nums.injEq, and_true] at h1
+  have r0 : round1 0 = 0 := by simp [round1, roundN_one_zero]
+  have r100 : round1 100 = 100 := by
+    have := roundN_one_tenths 1000
+    norm_num at this
+    exact this
+  have hU : percent 10 (Times.ofTicks 100 u) (Times.ofTicks 100 u) = 0 := by
+    simp [percent, percentExact, total, busy, stealAdv, adv, r0]
+  have hZ : percent 10 (Times.ofTicks 100 z) (Times.ofTicks 100 u) = 100 := by
+    have ht : total 10 (Times.ofTicks 100 z) (Times.ofTicks 100 u) = 1 := by
+      norm_num [total, busy, stealAdv, adv, Times.ofTicks, z, u]
+    have hb : busy 10 (Times.ofTicks 100 z) (Times.ofTicks 100 u) = 1 := by
+      norm_num [busy, stealAdv, adv, Times.ofTicks, z, u]
+    simp [percent, percentExact, ht, hb, r100]
+  -- by position: [cpu0 vs cpu0, OLD cpu1 vs NEW cpu2]; by number: [cpu0 vs cpu0, cpu2 vs cpu2]
+  have h2 : [percent 10 (Times.ofTicks 100 z) (Times.ofTicks 100 z),
+             percent 10 (Times.ofTicks 100 u) (Times.ofTicks 100 u)]
+          = [percent 10 (Times.ofTicks 100 z) (Times.ofTicks 100 z),
+             percent 10 (Times.ofTicks 100 z) (Times.ofTicks 100 u)] := h1
+  rw [hU, hZ] at h2
+  norm_num at h2
+
+/-! ## G. the parser on ANY bytes: which exception, exactly when -/
+
+/-- **C07_cpu_times_any_bytes.** For EVERY content of `/proc/stat` (any bytes at all) `cpu_times()`
+    is decided by the tokens of the first line alone: ValueError when one of the `nf` tokens after
+    the label is not a digit string, else TypeError when there are fewer than `nf` of them, else
+    their decimal values / USER_HZ (`lineOutcome`). -/
+theorem C07_cpu_times_any_bytes (tck : Nat) (htck : 0 < tck) (nf : Nat) (data : Bytes) :
+    cpuTimes cfg nf tck data = lineOutcome tck nf (splitWs (firstLine data)) := by
+  unfold cpuTimes
+  rw [cfg_good.sliceFrom, cfg_good.sliceExtra]
+  exact parseCpuValues_eq cfg cfg_good tck htck nf _
+
+/-- **C07_per_cpu_times_any_bytes.** For every content: `cpu_times(percpu=True)` reads the lines
+    after the first that start with `cpu`, in order; the first one that cannot be read decides the
+    exception and nothing is returned for the lines before it. -/
+theorem C07_per_cpu_times_any_bytes (tck : Nat) (htck : 0 < tck) (nf : Nat) (data : Bytes) :
+    perCpuTimes cfg nf tck data
+      = linesOutcome tck nf (((linesOf data).drop 1).filter (startsWith [99, 112, 117])) := by
+  unfold perCpuTimes
+  exact parseCpuLines_eq cfg cfg_good tck htck nf _
+
+/-- **C07_valueError_exactly_when.** `cpu_times()` raises ValueError EXACTLY when one of the `nf`
+    converted tokens of the first line is not a string of ASCII digits. -/
+theorem C07_valueError_exactly_when (tck : Nat) (htck : 0 < tck) (nf : Nat) (data : Bytes) :
+    cpuTimes cfg nf tck data = .error .valueError ↔
+      ∃ t ∈ counterToks nf (splitWs (firstLine data)), isDigitTok t = false := by
+  rw [C07_cpu_times_any_bytes tck htck]
+  exact lineOutcome_valueError_iff tck nf _
+
+/-- **C07_typeError_exactly_when.** … and TypeError (`scputimes(*fields)` with too few values) EXACTLY
+    when all converted tokens are digit strings but the line has fewer than `nf` of them — a bad
+    token wins over a short line. -/
+theorem C07_typeError_exactly_when (tck : Nat) (htck : 0 < tck) (nf : Nat) (data : Bytes) :
+    cpuTimes cfg nf tck data = .error .typeError ↔
+      (∀ t ∈ counterToks nf (splitWs (firstLine data)), isDigitTok t = true) ∧
+        (counterToks nf (splitWs (firstLine data))).length < nf := by
+  rw [C07_cpu_times_any_bytes tck htck]
+  exact lineOutcome_typeError_iff tck nf _
+
+/-- **C07_columns_beyond_ignored.** Tokens after column `nf` (columns a newer kernel appends, or
+    rubbish) are never converted: they cannot change the outcome, not even when malformed. -/
+theorem C07_columns_beyond_ignored (tck nf : Nat) (values extra : List Bytes)
+    (h : nf + 1 ≤ values.length) : lineOutcome tck nf (values ++ extra) = lineOutcome tck nf values := by
+  simp only [lineOutcome, counterToks_append nf values extra h]
+
+/-- **C07_per_cpu_ok_exactly_when.** `cpu_times(percpu=True)` returns a list EXACTLY when every line
+    after the first that starts with `cpu` is well formed (`nf` digit-string tokens after the label);
+    non-`cpu` lines and the first line never matter. -/
+theorem C07_per_cpu_ok_exactly_when (tck : Nat) (htck : 0 < tck) (nf : Nat) (data : Bytes) :
+    (∃ r, perCpuTimes cfg nf tck data = .ok r) ↔
+      ∀ l ∈ (linesOf data).drop 1, startsWith [99, 112, 117] l = true → lineWellFormed nf l = true := by
+  rw [C07_per_cpu_times_any_bytes tck htck, linesOutcome_ok_iff]
+  simp only [List.mem_filter, and_imp]
+
+/-- **C07_token_classes.** The kernel grammar lies inside the digit strings (where the model reads
+    the decimal value, as `float()` does); a FOREIGN token (one with a byte that occurs in no string
+    `float()` accepts) is never a digit string — there the model says ValueError, as `float()`
+    certainly does. What lies between (`1e3`, `+5`, `nan`, `--1` …) is outside the claim. -/
+theorem C07_token_classes (tck : Nat) (htck : 0 < tck) (t : Bytes) :
+    (isKernelTok t = true → isDigitTok t = true) ∧
+    (isForeignTok t = true → isDigitTok t = false ∧ parseFloatTok cfg tck t = .error .valueError) ∧
+    (isDigitTok t = true → parseFloatTok cfg tck t = .ok (((digitVal t : Nat) : Rat) / (tck : Rat))) := by
+  refine ⟨kernelTok_digitTok t, ?_, ?_⟩
+  · intro h
+    have hd := foreignTok_not_digitTok t h
+    refine ⟨hd, ?_⟩
+    rw [parseFloatTok_eq cfg cfg_good tck htck, hd]
+    rfl
+  · intro h
+    rw [parseFloatTok_eq cfg cfg_good tck htck, h]
+    rfl
+
+/-- **C07_foreign_token_raises.** A foreign token among the converted columns of the first line makes
+    `cpu_times()` raise ValueError, whatever the rest of the file looks like. -/
+theorem C07_foreign_token_raises (tck : Nat) (htck : 0 < tck) (nf : Nat) (data : Bytes) (t : Bytes)
+    (ht : t ∈ counterToks nf (splitWs (firstLine data))) (hf : isForeignTok t = true) :
+    cpuTimes cfg nf tck data = .error .valueError :=
+  (C07_valueError_exactly_when tck htck nf data).mpr ⟨t, ht, foreignTok_not_digitTok t hf⟩
+
+/-- **C07_leading_zeros.** Leading zeros do not change a token's value (`007` is 7, as for `float()`);
+    such tokens are digit strings outside the kernel grammar. -/
+theorem C07_leading_zeros (t : Bytes) (hne : t ≠ []) : digitVal (48 :: t) = digitVal t :=
+  digitVal_leading_zero t hne
+
+/-! ## H. a blocking call is a sample like any other -/
+
+/-- **C07_blocking_sample_is_remembered.** After ANY history, a blocking call `b` (interval > 0) leaves
+    its SECOND (post-sleep) sample behind as its thread's last sample for that function and variant:
+    the thread's next call `c` through the same function/variant is answered exactly as the
+    specification says for the remembered sample `t2` — a non-blocking `c` takes ONE read and is
+    measured from the end of the blocking interval, not from any older sample. -/
+theorem C07_blocking_sample_is_remembered (vlen tck : Nat) (h : List Call) (b c : Call)
+    (r0 r1 : Bytes) (rest : List Bytes) (t0 t2 : Stored)
+    (hb : b.blocking = true) (hr : b.reads = r0 :: r1 :: rest)
+    (h0 : sample ⟨cfg, vlen, tck⟩ b.percpu r0 = .ok t0)
+    (h2 : sample ⟨cfg, vlen, tck⟩ b.percpu r1 = .ok t2)
+    (hf : c.fam = b.fam) (ht : c.tid = b.tid) :
+    (step ⟨cfg, vlen, tck⟩ (runAll ⟨cfg, vlen, tck⟩ St.init (h ++ [b])) c).2
+      = expectedRef (sample ⟨cfg, vlen, tck⟩) (calcStored ⟨cfg, vlen, tck⟩) (some t2) c := by
+  rw [step_out_ref _ cfg_good.dictsDistinct, runAll_entry _ cfg_good.dictsDistinct, List.foldl_append]
+  simp only [List.foldl_cons, List.foldl_nil, hf, ht]
+  rw [prevStep_blocking _ b _ r0 r1 rest t0 t2 hb hr h0 h2]
+
+/-- proof obligation on the translator's fact `blockingStores`: in all four branches of
+    `cpu_percent` / `cpu_times_percent` the statement `_last_X[tid] = cpu_times(…)` follows the
+    `if blocking: … else: …` statement instead of sitting in its `else` branch — the shape `finish`
+    transcribes and `C07_blocking_sample_is_remembered` is about; a blocking branch that returns
+    without filing its post-sleep sample stops this theorem building -/
+theorem cfg_blocking_stores : Gen.C07.blockingStores = true := by decide
+
+/-! ### non-vacuity of the second extension round -/
+
+/-- a kernel state with CPU 1 offline (lines `cpu0`, `cpu2`, `cpu3`) meets the hypotheses of
+    `C07_times_any_numbering` and of `C07_percpu_by_number_partial` -/
+example : ∃ w : ProcStatL, w.cpus.map Prod.fst = [0, 2, 3] ∧ (w.cpus.map Prod.fst).Nodup ∧
+    (∀ l ∈ w.other, 10 ∉ l) ∧ (∀ l ∈ w.other, startsWith [99, 112, 117] l = false) :=
+  ⟨⟨⟨1, 2, 3, 4, 5, 6, 7, 8, 9, 10⟩, [(0, ⟨1, 0, 0, 0, 0, 0, 0, 0, 0, 0⟩), (2, ⟨0, 2, 3, 4, 5, 6, 7, 8, 9, 10⟩),
+    (3, ⟨0, 0, 0, 4, 0, 0, 0, 0, 0, 0⟩)], [[98, 116, 105, 109, 101, 32, 49]]⟩, rfl, by decide, by decide, by decide⟩
+
+/-- the three token classes are inhabited: `42` (kernel), `007` (digits, not kernel), `12x` (foreign),
+    `1e3` (neither digits nor foreign: outside the claim) -/
+example : isKernelTok [52, 50] = true ∧ (isDigitTok [48, 48, 55] = true ∧ isKernelTok [48, 48, 55] = false) ∧
+    isForeignTok [49, 50, 120] = true ∧ (isDigitTok [49, 101, 51] = false ∧ isForeignTok [49, 101, 51] = false) := by
+  decide
+
+/-- a blocking call with two readable snapshots exists (hypotheses of `C07_blocking_sample_is_remembered`) -/
+example : ∃ b : Call, b.blocking = true ∧ ∃ r0 r1 rest, b.reads = r0 :: r1 :: rest :=
+  ⟨⟨.percent, 1, some 1, false, [[], []]⟩, by simp [Call.blocking], [], [], [], rfl⟩
 
 end Psutil.C07
